@@ -343,6 +343,11 @@ def run_maps(shard: dict, res: Res) -> None:
     for _ in range(shard["n"]):
         maps = gen_map_config(rng)
         src = "\n".join(render_map(m, rng) for m in maps) + "\n"
+        if rng.random() < 0.3:
+            # .map lines that are never reached (a conditional that is not taken, a macro that is never applied) declare nothing
+            ghost = f".map identifier={maps[0]['identifier']} bank_range=0x00, 0xff addr_range=0x0000, 0xffff mask=0x10000"
+            src += rng.choice([f".if 0 {{\n{ghost}\n}}\n", f".macro never_q() {{\n{ghost}\n}}\n", f".if 2 - 2 {{\n{ghost}\n}}\n"])
+            res.count("configurations_with_unreached_map_lines")
         cfg = rm.from_map_directives(maps)
         r = assemble(src)
         wit = {"kind": "maps", "maps": maps, "src": src}
